@@ -12,12 +12,21 @@ def read_raw(lw, node, args):
     return 'QDataStream_readInto(%s, %s, %s)' % (args[0], args[1], args[2])
 
 
+def write_raw(lw, node, args):
+    a1 = lw.skip(node['inner'][1])
+    while a1.get('kind') in ('CStyleCastExpr', 'ImplicitCastExpr', 'CXXReinterpretCastExpr'):
+        a1 = lw.skip(a1['inner'][0])
+    if lw.tkey(a1) == 'Q_IPV6ADDR*':
+        return 'QDataStream_write_ipv6(%s, %s, %s)' % (args[0], args[1], args[2])
+    return 'QDataStream_writeFrom(%s, %s, %s)' % (args[0], args[1], args[2])
+
+
 def bitcast_charp(lw, node):
     sub = lw.skip(node['inner'][0])
     return lw.expr(sub)
 
 
-def profile():
+def profile(mode='read'):
     p = Profile(
         types={'QByteArray': 'QByteArray', 'QDataStream': 'QDataStream', 'QString': 'QString', 'QStringList': 'QStringList',
                'QHostAddress': 'QHostAddress', 'Q_IPV6ADDR': 'Q_IPV6ADDR', 'QIPv6Address': 'Q_IPV6ADDR', 'QSet<quint16>': 'QSetU16',
@@ -81,4 +90,25 @@ def profile():
         default_args={'QByteArray': '(&QByteArray_empty)'},
         hooks=[],
     )
+    if mode == 'wlog':
+        # encoder side: the output buffer is a write log (qtmodel/bytes.h, -DQBA_WLOG)
+        p.calls.update({
+            'op<<:QDataStream:quint8': ('fn', 'QDataStream_wr_u8'),
+            'op<<:QDataStream:quint16': ('fn', 'QDataStream_wr_u16'),
+            'op<<:QDataStream:quint32': ('fn', 'QDataStream_wr_u32'),
+            'QDataStream::writeRawData/2': write_raw,
+            'QSetU16::contains/1': ('fn', 'QSetU16_contains'),
+            'QHostAddress::protocol/0': ('field', 'proto'),
+            'QHostAddress::isNull/0': ('expr', '({0}->proto == -1)'),
+            'QHostAddress::toIPv4Address/0': ('field', 'v4'),
+            'QHostAddress::toIPv6Address/0': ('fnret', 'QHostAddress_toIPv6Address'),
+            'QString::toUtf8/0': ('fnret', 'QString_toUtf8'),
+            'fn:addAddress': ('callee', 'addAddress'),
+            'fn:encodeAddress': ('callee', 'encodeAddress'),
+            'fn:encodeString': ('callee', 'encodeString'),
+            'fn:qWarning': ('drop',),
+            'QMessageLogger::warning/1': ('drop',),
+            'ctor:QByteArray(QByteArray)': ('fn', 'QByteArray_copy'),
+        })
+        p.types['QAbstractSocket::NetworkLayerProtocol'] = 'int'
     return p
